@@ -150,17 +150,45 @@ def flag_generate(ctx, quick):
     for part in ctx.pmap(one, list(enumerate(shapes))):
         for g in part:
             pol = ["%s%d" % (a, b) for a, b in g["policy"]]
-            closures = sorted(set(g["callers"]))
-            kinds = {}
-            for c in closures:
-                single = g["callers"].count(c) == 1
-                kinds[str(c)] = rnd.choice(["safe", "plain"]) if single else "safe"   # plain closures are not shared
-            s = {"ns": g["ns"], "callers": g["callers"], "policy": pol,
-                 "setter": rnd.choice(["user", "user", "def", "replace", "repldef"]),
-                 "otype": rnd.choice(["string", "int", "array"]), "kinds": kinds}
-            scripts.append(s)
+            scripts.append(flag_script(g, pol, rnd))
             seen.add(vlib.sha([g["ns"], g["callers"], pol]))
-    return scripts, len(seen)
+    enum = flag_enumerate(ctx, quick, rnd)
+    for s in enum:
+        seen.add(vlib.sha([s["ns"], s["callers"], s["policy"]]))
+    return scripts + enum, len(seen), len(enum)
+
+
+def flag_enumerate(ctx, quick, rnd):
+    """All policies of small shapes: BFS of ConfigFlagGen (the history is part of the state, so every distinct
+    projected behaviour reaches its own terminal state and is printed there)."""
+    shapes = [(1, 2, 2, 2)] if quick else [(1, 2, 2, 2), (1, 2, 1, 2), (2, 1, 1, 2), (2, 2, 2, 1)]
+
+    def one(a):
+        ns, nc, share, calls = a
+        c = flag_consts(ns, nc, share)
+        c["MaxCalls"] = calls
+        r = ctx.tlc("ConfigFlagGen", cfg_text=vlib.cfg_text(spec="GenSpec", constants=c), workers=1, timeout=1500, count=False)
+        return r.emitted()
+    scripts, seen = [], set()
+    for part in ctx.pmap(one, shapes):
+        for g in part:
+            pol = ["%s%d" % (a, b) for a, b in g["policy"]]
+            key = vlib.sha([g["ns"], g["callers"], pol])
+            if key in seen:
+                continue
+            seen.add(key)
+            scripts.append(flag_script(g, pol, rnd))
+    return scripts
+
+
+def flag_script(g, pol, rnd):
+    kinds = {}
+    for c in sorted(set(g["callers"])):
+        single = g["callers"].count(c) == 1
+        kinds[str(c)] = rnd.choice(["safe", "plain"]) if single else "safe"   # plain closures are not shared
+    return {"ns": g["ns"], "callers": g["callers"], "policy": pol,
+            "setter": rnd.choice(["user", "user", "def", "replace", "repldef"]),
+            "otype": rnd.choice(["string", "int", "array"]), "kinds": kinds}
 
 
 def flag_sig(hist, ej):
@@ -186,6 +214,8 @@ def flag_execute(ctx, scripts):
         for e in evs:
             e.pop("h", None)
             e.pop("seq", None)
+        if r["crashed"] and r["crashed"].startswith("driver timeout"):
+            raise vlib.Inconclusive("cfgflag driver timed out on script %d" % i)
         if r["crashed"] and not any(e.get("e") == "hang" for e in evs):
             ctx.violation("flag:crash:setter=%s:otype=%s" % (scripts[i].get("setter"), scripts[i].get("otype")),
                           "cfgflag driver died: %s" % r["crashed"][:600],
@@ -226,10 +256,10 @@ def run(ctx):
         st["op"]["op"] != "Set" or st["op"]["o"] in ("rl", "beta", "exp") for st in s["steps"])})
     saveloads = sum(1 for s in scripts for st in s["steps"] if st["op"]["op"] == "SaveLoad")
     # part 2
-    ok2 = unex2 = npol = ndist = 0
+    ok2 = unex2 = npol = ndist = nenum = 0
     fscripts, fh = [], []
     if hooks_present():
-        fscripts, ndist = flag_generate(ctx, quick)
+        fscripts, ndist, nenum = flag_generate(ctx, quick)
         npol = len(fscripts)
         if npol < 50:
             raise vlib.Inconclusive("only %d flag policies generated" % npol)
@@ -241,13 +271,16 @@ def run(ctx):
     vlib.finish(ctx, LEVEL, {
         "traces_validated_against_impl": ok1 + ok2,
         "evaluations": len(scripts) + npol, "distinct_nontrivial": nontriv + ndist,
-        "rule": "part 1: histories of Set/SetDefault/Replace/ReplaceDefault/SaveLoad over 10 options and 39 raw value classes "
+        "rule": "part 1: histories of Set/SetDefault/Replace/ReplaceDefault/SaveLoad over 13 options and 40 raw value classes + nil "
                 "generated by TLC -simulate from spec/ConfigLayersGen.tla (depth 6/12/18), each executed in its own process "
                 "(+1 process per SaveLoad); non-trivial = contains a replace, a save/load or touches the release level or a "
                 "gated option; part 2: behaviours of spec/ConfigFlag.tla projected to actor sequences (8 shapes of setters x "
-                "callers x shared closures), setter kind / option type / closure kind drawn by seed; distinct by content hash",
+                "callers x shared closures, TLC -simulate) plus every projected behaviour of the smallest shapes (TLC BFS of "
+                "ConfigFlagGen: 1 setter x 2 callers sharing a closure x 2 calls; thorough also 1x2 separate closures, 2 setters x 1 "
+                "caller, 2x2 shared x 1 call), setter kind / option type / closure kind drawn by seed; distinct by content hash",
         "layer_histories": len(scripts), "layer_steps_validated": nsteps, "save_load_process_pairs": saveloads,
         "layer_model_states": mc1.distinct, "flag_policies": npol, "flag_policies_distinct": ndist,
+        "flag_policies_enumerated_small_shapes": nenum,
         "flag_mutant_refuted_at_depth": mutant_depth, "part2_ran": bool(npol),
         "histories_unexamined_after_rejections": unex1 + unex2,
         "samples": scripts[:1] + fscripts[:1] + ([fh[0][:12]] if fh else []),
